@@ -918,6 +918,7 @@ func vRunScenario(t *testing.T, sc map[string]any) map[string]any {
 		restore := s.install()
 		defer restore()
 		s.router = NewRouter(s.statePath)
+		vWritePages(1)
 		stepN := 0
 		for _, st := range vList(sc["steps"]) {
 			c := st.(map[string]any)
@@ -943,6 +944,9 @@ func vRunScenario(t *testing.T, sc map[string]any) map[string]any {
 				s.record(map[string]any{"id": id, "op": "release", "ok": ok})
 			case "probe_script":
 				s.setProbeScripts(vList(c["targets"]))
+			case "write_pages":
+				// the operator replaces the custom error pages in place (same directory): a later deploy reads the new ones
+				vWritePages(int(vInt(c["version"])))
 			case "cancel":
 				s.mu.Lock()
 				cf := s.hung[vStr(c["who"])]
